@@ -1,4 +1,37 @@
 TEXT = {
+ 'C12': {
+  'text': 'Lean 4 theorems over the one-step machine Journal.step: with well-formed operands the successor state is the old state with '
+          'arity operands popped, pc+1, fee 800 deducted, tracer updated and memory, return data, static flag and world EQUAL; the step never '
+          'reads the static flag; malformed operands halt. The entries 0xe0-0xe7 of all 13 instruction tables and 9 extra-EIP variants '
+          'are regenerated from the running code on every run and proved equal to the expected rows (constantGas 0, flat-fee closure, '
+          'no memorySize, min/max stack = pops arity) by decide +kernel; the closure body is extracted and proved to be a single constant '
+          'return. Tied by executing the opcodes in real bytecode on every fork, static and non-static, and comparing pops, memory size, '
+          'cost, pc and return-data buffer per step.',
+  'note': 'Trusted: Lean kernel + standard axioms; model of the opcodes; extractor; that the inherited interpreter loop is upstream\'s '
+          '(generated identity table). Program-level pair runs (journal op vs POPs) are not built; the per-step statement is what is proved.',
+  'technique': 'Lean 4 proof over a one-step machine model + regenerated instruction-table facts (decide +kernel) + per-step correspondence',
+ },
+ 'C20': {
+  'text': 'Lean 4 model with a work counter (storage reads, bytes copied, bytes allocated). Proved for all inputs: value journal <= 1 read; '
+          'value-keyed registrations do no work; memory-keyed registrations copy <= 32+|memory|; reference journal reads 1+ceil(len/32) '
+          'slots. The full property (work <= K*fee for a fixed K) is kept as c20_full and its NEGATION is proved (witness: one storage '
+          'word, any K < 2^48): known findings D5/D7. The implementation\'s read counts are compared with the model\'s on every run and '
+          'large length fields (2^10..2^20) are run against the K=16 bound.',
+  'note': 'Partial: inherited instructions and precompiles 1-9 are bounded by upstream\'s gas schedule (not modelled). Known findings D5 '
+          '(VRJNAL unbounded reads for a flat fee) and D7 (key journals copy attacker-sized memory for a flat fee) are reported as KNOWN-FINDING.',
+  'technique': 'Lean 4 proof of work bounds on a cost-instrumented model + negation witness + counting-StateDB correspondence',
+ },
+ 'C03': {
+  'text': 'Lean 4 theorem: for every journal opcode, operand tuple, memory content/capacity, storage function and keccak the modelled '
+          'instruction returns a result or an error, never the panic outcome (all Go partial operations - slice expressions, make, '
+          'Memory.GetCopy - are partial in the model). Tied by running the opcodes in real bytecode under recover() with boundary-driven '
+          'operands (0, 31/32/33, 2^63, 2^64-32, 2^64, 2^256-1) and comparing the outcome class with the model; the call-tree cursor is '
+          'checked at rest after every run.',
+  'note': 'Partial (c03_partial): Artela-added code is modelled; inherited instruction bodies are identity-checked against go-ethereum '
+          'v1.12.0 and assumed panic-free on an initialised host. Precompile, MCOPY, call-tracer and frame-bookkeeping parts are added as '
+          'their model layers land (see registry).',
+  'technique': 'Lean 4 proof of panic-freedom on a model with partial Go operations + outcome-class correspondence under recover()',
+ },
  'C09': {
   'text': 'Lean 4 theorems: for EVERY storage word, slot, offset and width the value journal records exactly solPacked (Solidity packed '
           'layout) when (offset,width) is a valid field and rejects otherwise; for EVERY storage function, slot and keccak the reference '
